@@ -187,7 +187,7 @@ def p6_inventory(F, res, R):
             if why:
                 res.ob("P6", full, desc, True, where=f.loc(ln), how="discharged: " + why)
                 continue
-            rv = reviewed.get("Q1/" + full)
+            rv = RP.lookup_reviewed(reviewed, "Q1/" + full, FL.guard_signature(F, f, b, defs))
             if rv and rv.get("guards", []) == FL.guard_signature(F, f, b, defs):
                 res.ob("P6", full, desc, True, where=f.loc(ln), how="reviewed: " + rv["reason"], reviewed=True)
             else:
